@@ -140,10 +140,30 @@ func (s c08Shape) expected() (recv string, params []string, results string) {
 func c08Setup(shapes []c08Shape) *pg.Prog {
 	p := &pg.Prog{}
 	it := pg.Iface{Name: "Convergen"}
-	for _, s := range shapes {
-		it.Methods = append(it.Methods, s.method())
+	// every other arg-style shape lives in a second converter interface that sorts BEFORE Convergen and sets
+	// ":style arg" at interface level (the method itself carries no style notation): the documented shape is
+	// the same, and the interface-level notation must not reach the methods of Convergen
+	alpha := pg.Iface{Name: "Alpha", Marked: true, Opts: pg.Toggles{Style: "arg"}}
+	for i, s := range shapes {
+		m := s.method()
+		if s.Style == "arg" && i%2 == 0 && len(shapes) > 1 {
+			m.Opts.Style = ""
+			alpha.Methods = append(alpha.Methods, m)
+			continue
+		}
+		it.Methods = append(it.Methods, m)
+	}
+	if len(shapes) == 1 && !shapes[0].legal() {
+		// an illegal shape is not alone: a legal method that sorts after it must not make the run succeed
+		it.Methods = append(it.Methods, pg.Method{Name: "ZzzLegalNeighbour", SrcType: "LInner", DstType: "LInner2", SrcPtr: true, DstPtr: true})
 	}
 	p.Ifaces = []pg.Iface{it}
+	if len(alpha.Methods) > 0 {
+		if len(it.Methods) == 0 {
+			p.Ifaces = nil
+		}
+		p.Ifaces = append([]pg.Iface{alpha}, p.Ifaces...)
+	}
 	p.FixImports()
 	// the extras mention ext and LInner; make sure ext is imported by name when it is used at all
 	return p
@@ -380,11 +400,17 @@ func TestC08(t *testing.T) {
 			if bad >= 0 {
 				cands = batch[bad : bad+1]
 			}
+			attributed := false
 			for _, s := range cands {
 				v1, _ := c08JudgeLegal(env, []c08Shape{s})
-				if !v1.OK {
+				if !v1.OK && !v1.Inconclusive {
+					attributed = true
 					rec.Report(t, v1, mk([]c08Shape{s}, true))
 				}
+			}
+			if !attributed {
+				// the failure needs the company of the other methods / the other interface: the batch is the case
+				rec.Report(t, v, mk(batch, true))
 			}
 			continue
 		}
